@@ -81,6 +81,26 @@ structure Pending where
   stamp : Nat
   deriving DecidableEq, Repr
 
+/-- `ClientSession.ClientType()` of the sessions of the harness world. -/
+inductive CType where
+  | client | federation | internal
+  deriving DecidableEq, Repr
+
+/-- What the hub knows about a session besides its media objects. None of it
+matters for the ownership invariant; the operations of the harness need it to
+say which sessions an event reaches. -/
+structure Meta where
+  ctype : CType := .client
+  /-- feature `internal-incall` (an internal client without it is created with its own in-call flags set) -/
+  feature : Bool := false
+  /-- the session's own in-call flags (`ClientSession.inCall`, set by the internal client's `incall` message) -/
+  flags : Nat := 0
+  /-- a client connection is attached (`ClientSession.client`) -/
+  connected : Bool := false
+  /-- the connection was lost: the session waits in `Hub.expiredSessions` -/
+  expiring : Bool := false
+  deriving DecidableEq, Repr
+
 structure Sess where
   /-- the context is cancelled: `Close()` was called at least once -/
   closed : Bool
@@ -97,6 +117,7 @@ structure Sess where
   objs : Kind → Option Nat
   /-- revocation goroutines started and not yet run -/
   sweeps : Nat
+  info : Meta := {}
 
 structure State where
   sess : Nat → Sess
@@ -132,6 +153,13 @@ structure Cfg where
   recheckSub : Bool
   /-- the revocation goroutine returns after the first publisher it closes -/
   sweepEarly : Bool
+  /-- every statement that takes client sessions out of a room's in-call set calls `LeaveCall()` for each of them
+  (`PublishUsersInCallChanged`, `PublishUsersInCallChangedAll`, `NotifySessionChanged`) -/
+  inCallExits : Bool := true
+  /-- the hub / client functions that end a room stay or a session (bye, expiry, room deleted, room-session
+  reconnect, disinvite) call `LeaveRoom` / `Close` on the session; the room pointer is only cleared and the
+  context only cancelled by releasers -/
+  hubExits : Bool := true
   deriving DecidableEq, Repr
 
 /-- The order of lock / snapshot / create / re-check / store events the model of
@@ -150,10 +178,30 @@ generations, and every release bumps the generation before anything else. -/
 def generationCheckSound : Bool :=
   generationCheckConds == ["s.ctx.Err()!=nil", "s.mcuGeneration!=generation"] && releaseBumpsGenerationFirst
 
+/-- The statements that take sessions out of `Room.inCallSessions`, with the sessions
+for which `LeaveCall()` follows: a `delete` of one session is followed by its
+`LeaveCall()` if it is a client session; the reset of the whole set ("call ended
+for everybody") feeds *every member of the set* that is a client session to
+`LeaveCall()`; `RemoveSession` (called by `doLeaveRoom`, after the release) needs none. -/
+def expectedInCallRemovals : List String :=
+  ["NotifySessionChanged:delete(session):is-ClientSession(session)",
+   "PublishUsersInCallChanged:delete(session):is-ClientSession(session)",
+   "PublishUsersInCallChangedAll:reset:r.inCallSessions : is-ClientSession(session)",
+   "RemoveSession:delete(session):none"]
+
+/-- What the functions that end a room stay or a session call on it. -/
+def expectedExitCalls : List String :=
+  ["processByeMsg:Close", "checkExpiredSessions:Close", "checkAnonymousSessions:Close",
+   "processRoomDeleted:LeaveRoom", "disconnectByRoomSessionId:LeaveRoom,Close", "removeSession:LeaveRoom",
+   "writeMessageLocked.CloseAfterSend:Close", "processAsyncMessage.bye:LeaveRoom,closeAndWait"]
+
 def codeCfg : Cfg :=
   { recheckPub := publisherProgram == expectedPublisherProgram && generationCheckSound
     recheckSub := subscriberProgram == expectedSubscriberProgram && generationCheckSound
-    sweepEarly := sweepReturnsEarly }
+    sweepEarly := sweepReturnsEarly
+    inCallExits := inCallRemovals == expectedInCallRemovals
+    hubExits := exitCalls == expectedExitCalls && roomClearSites.all releasers.contains &&
+      cancelSites.all releasers.contains }
 
 /-- The repaired behaviour. -/
 def Cfg.repaired : Cfg := { recheckPub := true, recheckSub := true, sweepEarly := false }
@@ -233,6 +281,8 @@ inductive Action where
   | subBegin (s : Nat) (ofSession : Nat) (t : Stream)
   | createEnd (k : Nat) (o : Outcome)
   | doClose (k : Nat)
+  /-- client type / own in-call flags / connection state of a session change (no media object is touched) -/
+  | setMeta (s : Nat) (m : Meta)
   deriving DecidableEq, Repr
 
 def leaveRoomStep (st : State) (s : Nat) : State :=
@@ -323,6 +373,7 @@ def step (cfg : Cfg) (st : State) : Action → State
       | .ok => createEndOk cfg st p
       | _ => { st with pend := st.pend.filter (fun q => q.id != k) }
   | .doClose k => { st with objs := closeObj st.objs k, closing := st.closing.filter (· != k) }
+  | .setMeta s m => st.upd s fun x => { x with info := m }
 
 def run (cfg : Cfg) (st : State) (acts : List Action) : State := acts.foldl (step cfg) st
 
@@ -347,12 +398,43 @@ inductive Op where
   | finish (k : Nat) (o : Outcome)
   | close (s : Nat)
   | state
+  /-- client types / features / connections of the sessions `0, 1, …` of the case -/
+  | world (ms : List Meta)
+  /-- backend request `incall` with `all = true` for room `r` (`Room.PublishUsersInCallChangedAll`);
+  `all` lists the sessions of the world -/
+  | incallAll (r : Nat) (b : Bool) (all : List Nat)
+  /-- the internal client's own `incall` message (`Hub.processInternalMsg`) -/
+  | intIncall (s : Nat) (flags : Nat)
+  /-- backend request `delete` for room `r` (`Hub.processRoomDeleted`) -/
+  | delRoom (r : Nat) (all : List Nat)
+  /-- `roomlist` / `disinvite` event for room `r` sent to session `s` (closes the session when it is written to
+  the connection of a session that is in that room) -/
+  | disinvite (s r : Nat)
+  /-- another connection joins with the room session id of `s` (`Hub.disconnectByRoomSessionId`) -/
+  | kick (s : Nat)
+  /-- asynchronous `bye` / `room_session_reconnected` message for `s` -/
+  | asyncBye (s : Nat)
+  /-- client message `bye` on the connection of `s` -/
+  | bye (s : Nat)
+  /-- the connection of `s` is lost -/
+  | drop (s : Nat)
+  /-- the expiry time of the sessions without connection passes (`Hub.checkExpiredSessions`) -/
+  | expire (all : List Nat)
+  /-- the internal client `s` adds a virtual session to room `r` (no media objects of its own) -/
+  | virtual (s r : Nat)
   deriving DecidableEq, Repr
 
-/-- `Hub.isInSameCall` for two client sessions of this hub. -/
+def isInternal (st : State) (s : Nat) : Bool := (st.sess s).info.ctype == .internal
+
+/-- `Hub.isInSameCall` for two sessions of this hub: an internal client may
+subscribe anything; otherwise both are in the same room, the sender is in the
+call, and so is the recipient unless it is an internal client. -/
 def sameCall (st : State) (s p : Nat) : Bool :=
+  if isInternal st s then true else
   match (st.sess s).room, (st.sess p).room with
-  | some r, some r' => r == r' && (st.sess s).inCall && (st.sess p).inCall
+  | some r, some r' =>
+    -- the recipient is looked up in the hub: a closed session is not found
+    r == r' && (st.sess s).inCall && !(st.sess p).closed && (isInternal st p || (st.sess p).inCall)
   | _, _ => false
 
 /-- `ClientSession.IsAllowedToSend` for a `sendoffer` message. -/
@@ -361,27 +443,87 @@ def allowedToSend (p : Perms) (t : Option Stream) : Bool :=
   | some .screen => p.screen
   | _ => p.media || p.audio || p.video
 
-def opActions (st : State) : Op → List Action
-  | .join s r => [.leaveRoom s, .join s r]
-  | .leave s => [.leaveRoom s]
+/-- `Close()` run to the end; the connection (if any) is detached and the session
+is no longer waiting for its expiry. -/
+def closeActs (st : State) (s : Nat) : List Action :=
+  [.closeCancel s, .closeLeave s, .closeRelease s,
+   .setMeta s { (st.sess s).info with connected := false, expiring := false }]
+
+/-- The client sessions in `Room.sessions` of room `r`. -/
+def roomMembers (st : State) (r : Nat) (all : List Nat) : List Nat :=
+  all.filter fun s => (st.sess s).room == some r
+
+/-- A session is taken out of the in-call set of its room: `LeaveCall()` follows
+(as long as the source has the shape `expectedInCallRemovals`). -/
+def leaveCallActs (cfg : Cfg) (s : Nat) : List Action :=
+  if cfg.inCallExits then [.inCallSet s false, .leaveCall s] else [.inCallSet s false]
+
+/-- `FlagInCall` of in-call flags. -/
+def flagInCall (flags : Nat) : Bool := flags % 2 == 1
+
+/-- In-call flags an internal client is created with (`NewClientSession`):
+`FlagInCall | FlagWithAudio` unless it has the feature `internal-incall`. -/
+def initialFlags (t : CType) (feature : Bool) : Nat :=
+  if t == .internal && !feature then 3 else 0
+
+def setMetas : List Meta → Nat → List (List Action)
+  | [], _ => []
+  | m :: ms, i => [.setMeta i m] :: setMetas ms (i + 1)
+
+/-- The actions of a harness op, grouped in blocks: one block is what happens to
+one session (the blocks of an op that reaches several sessions follow each other). -/
+def opBlocks (cfg : Cfg) (st : State) : Op → List (List Action)
+  | .join s r => [[.leaveRoom s, .join s r]]
+  | .leave s => [[.leaveRoom s]]
   | .incall s b =>
     match (st.sess s).room with
     | none => []
     | some _ =>
       -- `Room.PublishUsersInCallChanged` looks the session up in the hub: a closed one is skipped
       if (st.sess s).closed then []
-      else if b then [.inCallSet s true] else [.inCallSet s false, .leaveCall s]
-  | .perms s p => [.setPerms s p, .sweep s]
-  | .offer s (some t) m => [.offerBegin s t m]
+      else if b then [[.inCallSet s true]] else [leaveCallActs cfg s]
+  | .perms s p => [[.setPerms s p, .sweep s]]
+  | .offer s (some t) m => [[.offerBegin s t m]]
   | .offer _ none _ => []
-  | .request s p (some t) => if s ≠ p ∧ sameCall st s p then [.subBegin s p t] else []
+  | .request s p (some t) => if s ≠ p ∧ sameCall st s p then [[.subBegin s p t]] else []
   | .request _ _ none => []
   | .sendoffer p s (some t) =>
-    if p ≠ s ∧ (st.sess s).closed = false ∧ allowedToSend (st.sess p).perms (some t) then [.subBegin s p t] else []
+    if p ≠ s ∧ (st.sess s).closed = false ∧ allowedToSend (st.sess p).perms (some t) then [[.subBegin s p t]] else []
   | .sendoffer _ _ none => []
-  | .finish k o => [.createEnd k o]
-  | .close s => [.closeCancel s, .closeLeave s, .closeRelease s]
+  | .finish k o => [[.createEnd k o]]
+  | .close s => [closeActs st s]
   | .state => []
+  | .world ms => setMetas ms 0
+  | .incallAll r true all =>
+    -- every user session of the room joins the call; internal and federation clients are not touched
+    ((roomMembers st r all).filter fun s => (st.sess s).info.ctype == .client && !(st.sess s).inCall).map
+      fun s => [.inCallSet s true]
+  | .incallAll r false all =>
+    -- the set is emptied; every member of it leaves the call
+    ((roomMembers st r all).filter fun s => (st.sess s).inCall).map (leaveCallActs cfg)
+  | .intIncall s f =>
+    let m := (st.sess s).info
+    if m.ctype != .internal || m.flags == f then []
+    else [.setMeta s { m with flags := f } ::
+      (match (st.sess s).room with
+       | none => []
+       | some _ => if flagInCall f then [.inCallSet s true] else leaveCallActs cfg s)]
+  | .delRoom r all => if cfg.hubExits then (roomMembers st r all).map fun s => [.leaveRoom s] else []
+  | .disinvite s r =>
+    if cfg.hubExits && (st.sess s).info.connected && (st.sess s).room == some r then [closeActs st s] else []
+  | .kick s =>
+    -- the room session id leads to the session id, the session is looked up in the hub: a closed one is not found
+    if cfg.hubExits && (st.sess s).room.isSome && !(st.sess s).closed then [.leaveRoom s :: closeActs st s] else []
+  | .asyncBye s => if cfg.hubExits then [.leaveRoom s :: closeActs st s] else []
+  | .bye s => if cfg.hubExits && (st.sess s).info.connected then [closeActs st s] else []
+  | .drop s =>
+    let m := (st.sess s).info
+    if m.connected then [[.setMeta s { m with connected := false, expiring := true }]] else []
+  | .expire all =>
+    if cfg.hubExits then (all.filter fun s => (st.sess s).info.expiring).map (closeActs st) else []
+  | .virtual _ _ => []
+
+def opActions (cfg : Cfg) (st : State) (op : Op) : List Action := (opBlocks cfg st op).flatten
 
 def beginOutput (st : State) (s : Nat) (kd : Kind) : String :=
   match (st.sess s).objs kd with
@@ -430,12 +572,23 @@ def opOutput (cfg : Cfg) (st : State) : Op → String
       | _ => "failed"
   | .close _ => "ok"
   | .state => ""
+  | .world ms => "ok " ++ " ".intercalate (ms.map fun m => toString m.flags)
+  | .incallAll _ _ _ => "ok"
+  | .intIncall s f => if isInternal st s then s!"ok {f}" else "ignored"
+  | .delRoom _ _ => "ok"
+  | .disinvite _ _ => "ok"
+  | .kick s => if (st.sess s).room.isSome then "ok" else "noroom"
+  | .asyncBye _ => "ok"
+  | .bye s => if (st.sess s).info.connected then "ok" else "noclient"
+  | .drop s => if (st.sess s).info.connected then "ok" else "noclient"
+  | .expire _ => "ok"
+  | .virtual s _ => if isInternal st s then "ok" else "ignored"
 
 def drain (cfg : Cfg) (st : State) : State :=
   run cfg st (st.closing.map Action.doClose)
 
 def exec (cfg : Cfg) (st : State) (op : Op) : State × String :=
-  (drain cfg (run cfg st (opActions st op)), opOutput cfg st op)
+  (drain cfg (run cfg st (opActions cfg st op)), opOutput cfg st op)
 
 /-! ### printing the observation -/
 
